@@ -5,6 +5,7 @@ set -u
 N="$1"; TIER="$2"; shift 2
 OUT=/verif/seeded/$N/checks_$TIER.txt
 /verif/tools/mutant_run.sh "$N" /verif/seeded/$N/patch.diff "$TIER" "$@" | tee /tmp/mutres-$N.txt
+touch "$OUT"; for c in "$@"; do sed -i "/^MUTANT $N $c /d" "$OUT"; done
 grep '^MUTANT' /tmp/mutres-$N.txt | sed 's#replay=/verif/replays/#replay=replays/#' >> "$OUT"
 sort -u -o "$OUT" "$OUT"; rm -f /tmp/mutres-$N.txt
 # keep the first violation's replay summary as evidence of what was found
